@@ -15,7 +15,7 @@ static uint8_t *snappy_enc_alloc(const uint8_t *xp, size_t xn, size_t *zn) {
 }
 
 /* input copied to an exactly-sized heap buffer so that reads past the end are caught */
-static uint8_t *exact_copy(const uint8_t *p, size_t n) {
+static uint8_t *sn_exact_copy(const uint8_t *p, size_t n) {
   uint8_t *q = (uint8_t *)malloc(n ? n : 1);
   if (n) memcpy(q, p, n);
   return q;
@@ -23,7 +23,7 @@ static uint8_t *exact_copy(const uint8_t *p, size_t n) {
 
 /* prints ok <bytes> / fail / toobig */
 static void snappy_dec_print(const uint8_t *xp, size_t xn) {
-  size_t zn; uint8_t *z; uint8_t *in = exact_copy(xp, xn);
+  size_t zn; uint8_t *z; uint8_t *in = sn_exact_copy(xp, xn);
   if (!snappy_decode_size(&zn, in, xn)) { printf("fail"); free(in); return; }
   if (zn > SNAPPY_DECODE_CAP) { printf("toobig"); free(in); return; }
   z = (uint8_t *)malloc(zn ? zn : 1);
@@ -36,7 +36,7 @@ static int handle_snappy(char **f, int nf) {
   if (nf == 2 && (!strcmp(f[0], "senc") || !strcmp(f[0], "sencx"))) {
     size_t zn; uint8_t *z, *in;
     if (!parse_bytes(f[1], &g_a)) { printf("bad-op"); return 1; }
-    in = exact_copy(g_a.p, g_a.n);
+    in = sn_exact_copy(g_a.p, g_a.n);
     z = snappy_enc_alloc(in, g_a.n, &zn);
     if (!z) { printf("fail"); free(in); return 1; }
     if (f[0][4] == 'x' && zn <= 65536) print_hex(stdout, z, zn); else show_bytes(stdout, z, zn);
@@ -47,7 +47,7 @@ static int handle_snappy(char **f, int nf) {
   } else if (nf == 2 && !strcmp(f[0], "sdsize")) {
     size_t zn; uint8_t *in;
     if (!parse_bytes(f[1], &g_a)) { printf("bad-op"); return 1; }
-    in = exact_copy(g_a.p, g_a.n);
+    in = sn_exact_copy(g_a.p, g_a.n);
     if (snappy_decode_size(&zn, in, g_a.n)) printf("ok %lu", (unsigned long)zn); else printf("fail");
     free(in);
   } else if (nf == 2 && !strcmp(f[0], "sdec")) {
@@ -56,7 +56,7 @@ static int handle_snappy(char **f, int nf) {
   } else if (nf == 2 && !strcmp(f[0], "srt")) {
     size_t zn; uint8_t *z, *in;
     if (!parse_bytes(f[1], &g_a)) { printf("bad-op"); return 1; }
-    in = exact_copy(g_a.p, g_a.n);
+    in = sn_exact_copy(g_a.p, g_a.n);
     z = snappy_enc_alloc(in, g_a.n, &zn);
     if (!z) { printf("fail"); free(in); return 1; }
     snappy_dec_print(z, zn);
